@@ -245,7 +245,7 @@ def Sys.step (f : MockFn) (s : Sys) (i : CycIn) : Sys × SysOut :=
   -- testbench process disables its adapter; both before the effects are applied
   let aen2 := if s.caller.drive.isSome then false else aen1
   let after := [wiresOf s.w (s.k + 1) aen1 adata1 rdy1, wiresOf s.w (s.k + 1) aen2 adata1 rdy1]
-  let (ms', o) := s.ms.cycle f { pre := ws.take (i.e + 1), men := i.men, post := ws.drop (i.e + 1), after := after }
+  let (ms', o) := s.ms.cycle f { pre := ws.take (i.e + 1), men := i.men, post := ws.drop (i.e + 1), after := after, x := i.x }
   let out := (o.ret + i.val) % 2 ^ s.w
   let (caller', co) := s.caller.step { grant := o.done, out := out }
   ({ s with caller := caller', ms := ms', k := s.k + 1, aen := aen2, adata := adata1, rdy := rdy1 },
